@@ -1640,4 +1640,207 @@ theorem legacyDigestH_eq (sha256 : Bytes → Bytes) (T : Tables) (h : H) (self :
   digestHWith_eq (Py.pack "<i" ht) sha256 T h self i code ht
 
 
+/-! ### the stages simulate the model -/
+
+theorem stageOut_two (cur : H) (tmp : Ref) (version locktime : Bytes) (seg : Bool) (a c : Ref) (ins outs : List Ref)
+    (i : Nat) (ws : List Ref) :
+    stageOut cur tmp version locktime seg a c ins outs i 2 ws =
+      .ok (((ins.zipIdx.map fun p => (p.2, p.1)).foldl (zeroSeq i)
+        (write (cur ++ [.reflist []]) tmp (.tx version locktime seg a cur.length c), tmp :: ws)).1, tmp,
+        ((ins.zipIdx.map fun p => (p.2, p.1)).foldl (zeroSeq i)
+        (write (cur ++ [.reflist []]) tmp (.tx version locktime seg a cur.length c), tmp :: ws)).2) := rfl
+
+theorem stageOut_three_none (cur : H) (tmp : Ref) (version locktime : Bytes) (seg : Bool) (a c : Ref)
+    (ins outs : List Ref) (i : Nat) (ws : List Ref) (ho : outs[i]? = none) :
+    stageOut cur tmp version locktime seg a c ins outs i 3 ws = .error .valueError := by
+  unfold stageOut
+  simp only [ho, show (3 : Nat) ≠ 2 by decide, ↓reduceIte]
+  rfl
+
+theorem stageOut_three_some (cur : H) (tmp : Ref) (version locktime : Bytes) (seg : Bool) (a c : Ref)
+    (ins outs : List Ref) (i : Nat) (ws : List Ref) (o : Ref) (ho : outs[i]? = some o) :
+    stageOut cur tmp version locktime seg a c ins outs i 3 ws =
+      .ok (((ins.zipIdx.map fun p => (p.2, p.1)).foldl (zeroSeq i)
+        (write (((List.range i).foldl fill (cur, [])).1 ++ [.reflist (((List.range i).foldl fill (cur, [])).2 ++ [o])])
+          tmp (.tx version locktime seg a ((List.range i).foldl fill (cur, [])).1.length c), tmp :: ws)).1, tmp,
+        ((ins.zipIdx.map fun p => (p.2, p.1)).foldl (zeroSeq i)
+        (write (((List.range i).foldl fill (cur, [])).1 ++ [.reflist (((List.range i).foldl fill (cur, [])).2 ++ [o])])
+          tmp (.tx version locktime seg a ((List.range i).foldl fill (cur, [])).1.length c), tmp :: ws)).2) := by
+  unfold stageOut
+  simp only [ho, show (3 : Nat) ≠ 2 by decide, ↓reduceIte]
+  rfl
+
+theorem stageOut_other (cur : H) (tmp : Ref) (version locktime : Bytes) (seg : Bool) (a c : Ref)
+    (ins outs : List Ref) (i base : Nat) (ws : List Ref) (h2 : base ≠ 2) (h3 : base ≠ 3) :
+    stageOut cur tmp version locktime seg a c ins outs i base ws = .ok (cur, tmp, ws) := by
+  unfold stageOut
+  simp only [h2, h3, ↓reduceIte]
+  rfl
+
+/-- rebinding `outputs` of the temporary transaction to a fresh list -/
+theorem rebind_outputs {cur : H} {tmp : Ref} {version locktime : Bytes} {seg : Bool} {a b c : Ref}
+    {ins outs wits : List Ref} {I : List TxIn} {O : List TxOut} {W : List (List Bytes)}
+    (s : St cur tmp version locktime seg a b c ins outs wits I O W) (ext : H) (outs' : List Ref) (O' : List TxOut)
+    (hO' : outs'.map (viewTxOut (cur ++ ext)) = O'.map some) :
+    St (write (cur ++ ext ++ [.reflist outs']) tmp (.tx version locktime seg a (cur ++ ext).length c)) tmp
+      version locktime seg a (cur ++ ext).length c ins outs' wits I O' W := by
+  have k : Keeps isTx cur (write (cur ++ ext ++ [.reflist outs']) tmp
+      (.tx version locktime seg a (cur ++ ext).length c)) := by
+    rw [List.append_assoc]; exact keepsTx_rebind s.htmp rfl _ _
+  have k2 : Keeps isTx (cur ++ ext) (write (cur ++ ext ++ [.reflist outs']) tmp
+      (.tx version locktime seg a (cur ++ ext).length c)) :=
+    keepsTx_rebind (get_ext _ s.htmp) rfl _ _
+  have htl : tmp < cur.length := get_lt s.htmp
+  refine ⟨get_write_self _ (by simp only [List.length_append, List.length_cons, List.length_nil, Ref] at *; omega),
+    k _ _ s.ha rfl, ?_, k _ _ s.hc rfl, keepsTx_mapIn k s.hI,
+    keepsTx_mapOut k2 hO', keepsTx_mapWit k s.hW⟩
+  rw [get_write_ne]
+  · simp
+  · simp only [List.length_append, Ref] at *; omega
+
+theorem stageOut_sim_ok {cur : H} {tmp : Ref} {version locktime : Bytes} {seg : Bool} {a b c : Ref}
+    {ins outs wits : List Ref} {I : List TxIn} {O : List TxOut} {W : List (List Bytes)}
+    (s : St cur tmp version locktime seg a b c ins outs wits I O W) (hnd : ins.Nodup) (i base : Nat) (ws : List Ref)
+    {cur' : H} {tmp' : Ref} {ws' : List Ref}
+    (hs : stageOut cur tmp version locktime seg a c ins outs i base ws = .ok (cur', tmp', ws')) :
+    tmp' = tmp ∧ ∃ b' outs' I' O', modelOut I O i base = .ok (I', O') ∧
+      St cur' tmp version locktime seg a b' c ins outs' wits I' O' W := by
+  by_cases h2 : base = 2
+  · subst h2
+    rw [stageOut_two] at hs
+    simp only [Except.ok.injEq, Prod.mk.injEq] at hs
+    obtain ⟨rfl, rfl, rfl⟩ := hs
+    have s1 := rebind_outputs s [] [] [] rfl
+    simp only [List.append_nil] at s1
+    exact ⟨rfl, _, _, _, _, rfl, zeroSeq_stage s1 hnd i _⟩
+  · by_cases h3 : base = 3
+    · subst h3
+      cases ho : outs[i]? with
+      | none => rw [stageOut_three_none _ _ _ _ _ _ _ _ _ _ _ ho] at hs; cases hs
+      | some o =>
+        rw [stageOut_three_some _ _ _ _ _ _ _ _ _ _ _ o ho] at hs
+        simp only [Except.ok.injEq, Prod.mk.injEq] at hs
+        obtain ⟨rfl, rfl, rfl⟩ := hs
+        obtain ⟨y, hy, hv⟩ := map_some_get s.hO ho
+        obtain ⟨ext, new, e1, e2, e3⟩ := fill_fold (List.range i) (cur, [])
+        simp only [List.nil_append, List.length_range] at e1 e2 e3
+        have hm : modelOut I O i 3 = .ok (zeroOtherSequences I i, List.replicate i filler ++ [y]) := by
+          unfold modelOut; simp only [hy, show (3 : Nat) ≠ 2 by decide, ↓reduceIte]
+        rw [e1] at e3
+        rw [e1, e2]
+        have hO' : (new ++ [o]).map (viewTxOut (cur ++ ext)) = (List.replicate i filler ++ [y]).map some := by
+          simp only [List.map_append, List.map_cons, List.map_nil, e3, viewTxOut_ext ext hv]
+        exact ⟨rfl, _, _, _, _, hm, zeroSeq_stage (rebind_outputs s ext _ _ hO') hnd i _⟩
+    · rw [stageOut_other _ _ _ _ _ _ _ _ _ _ _ _ h2 h3] at hs
+      simp only [Except.ok.injEq, Prod.mk.injEq] at hs
+      obtain ⟨rfl, rfl, rfl⟩ := hs
+      exact ⟨rfl, _, _, _, _, by unfold modelOut; simp only [h2, h3, ↓reduceIte], s⟩
+
+theorem stageOut_sim_err {cur : H} {tmp : Ref} {version locktime : Bytes} {seg : Bool} {a b c : Ref}
+    {ins outs wits : List Ref} {I : List TxIn} {O : List TxOut} {W : List (List Bytes)}
+    (s : St cur tmp version locktime seg a b c ins outs wits I O W) (i base : Nat) (ws : List Ref)
+    {e : PyErr}
+    (hs : stageOut cur tmp version locktime seg a c ins outs i base ws = .error e) :
+    modelOut I O i base = .error e := by
+  by_cases h2 : base = 2
+  · subst h2
+    rw [stageOut_two] at hs; cases hs
+  · by_cases h3 : base = 3
+    · subst h3
+      cases ho : outs[i]? with
+      | none =>
+        rw [stageOut_three_none _ _ _ _ _ _ _ _ _ _ _ ho] at hs
+        simp only [Except.error.injEq] at hs; subst hs
+        have : O[i]? = none := by
+          have h1 := map_some_length s.hO
+          have h2 := List.getElem?_eq_none_iff.mp ho
+          exact List.getElem?_eq_none_iff.mpr (by omega)
+        unfold modelOut
+        simp only [this, show (3 : Nat) ≠ 2 by decide, ↓reduceIte]
+      | some o => rw [stageOut_three_some _ _ _ _ _ _ _ _ _ _ _ o ho] at hs; cases hs
+    · rw [stageOut_other _ _ _ _ _ _ _ _ _ _ _ _ h2 h3] at hs; cases hs
+
+theorem stageAny_sim {cur : H} {tmp : Ref} {version locktime : Bytes} {seg : Bool} {a b c : Ref}
+    {ins outs wits : List Ref} {I : List TxIn} {O : List TxOut} {W : List (List Bytes)}
+    (s : St cur tmp version locktime seg a b c ins outs wits I O W) {i : Nat} {ri : Ref} (hi : ins[i]? = some ri)
+    (ht : Nat) (ws : List Ref) :
+    ∃ cur' ws' a' ins', stageAny cur tmp ri ht ws = .ok (cur', tmp, ws') ∧
+      St cur' tmp version locktime seg a' b c ins' outs wits (modelAny I i ht) O W := by
+  unfold stageAny modelAny
+  by_cases hany : ht &&& 0x80 ≠ 0
+  · simp only [hany, ↓reduceIte, ne_eq, not_false_eq_true, s.htmp, alloc]
+    obtain ⟨y, hy, hv⟩ := map_some_get s.hI hi
+    refine ⟨_, _, cur.length, [ri], rfl, ?_⟩
+    simp only [hy]
+    have k : Keeps isTx cur (write (cur ++ [.reflist [ri]]) tmp (.tx version locktime seg cur.length b c)) :=
+      keepsTx_rebind s.htmp rfl _ _
+    have htl : tmp < cur.length := get_lt s.htmp
+    refine ⟨get_write_self _ (by simp only [List.length_append, List.length_cons, List.length_nil, Ref] at *; omega),
+      ?_, k _ _ s.hb rfl, k _ _ s.hc rfl, ?_,
+      keepsTx_mapOut k s.hO, keepsTx_mapWit k s.hW⟩
+    · rw [get_write_ne]
+      · simp
+      · simp only [Ref] at *; omega
+    · simp only [List.map_cons, List.map_nil, List.cons.injEq, and_true]
+      exact k.viewTxIn (fun _ _ _ _ => rfl) (fun _ => rfl) (fun _ => rfl) hv
+  · simp only [hany, ↓reduceIte]
+    exact ⟨_, _, _, _, rfl, s⟩
+
+
+theorem prepare_sim {h : H} {self code : Ref} {i ht : Nat} {t : Tx} {toks : List Tok}
+    (ht' : viewTx h self = some t) (hcv : viewScript h code = some toks) :
+    match legacyDigestPrepare h self i code ht with
+    | .ok (h', tmp, _) => ∃ tm, modelTmp t i toks ht = .ok tm ∧ viewTx h' tmp = some tm
+    | .error e => modelTmp t i toks ht = .error e := by
+  obtain ⟨h1, tmp, hcp⟩ := copyTx_ok ht'
+  obtain ⟨ext, rfl, _, hview, hnd⟩ := copyTx_spec hcp
+  have hv1 := hview t ht'
+  obtain ⟨version, locktime, seg, a, b, c, ins, outs, wits, htmp, ha, hb, hc, hI, hO, hW, e1, e2, e3⟩ :=
+    viewTx_some.mp hv1
+  have hnd' := hnd _ _ _ _ _ _ _ htmp ha
+  have s0 : St (h ++ ext) tmp version locktime seg a b c ins outs wits t.inputs t.outputs t.witnesses :=
+    ⟨htmp, ha, hb, hc, hI, hO, hW⟩
+  have hcode1 : viewScript (h ++ ext) code = some toks := viewScript_ext ext hcv
+  obtain ⟨k1, s1⟩ := blank_stage s0 hnd' []
+  have hcode2 := k1.viewScript (fun _ => rfl) (fun _ => rfl) hcode1
+  rw [prepare_eq]
+  unfold prepareStaged
+  simp only [hcp, bind, Except.bind, htmp, ha]
+  cases hri : ins[i]? with
+  | none =>
+    simp only
+    have : (t.inputs.map fun x => { x with scriptSig := [] })[i]? = none := by
+      have h1 := map_some_length hI
+      have h2 := List.getElem?_eq_none_iff.mp hri
+      exact List.getElem?_eq_none_iff.mpr (by simp only [List.length_map]; omega)
+    unfold modelTmp
+    simp only [this]
+    rfl
+  | some ri =>
+    obtain ⟨x, hx, hvx⟩ := map_some_get s1.hI hri
+    obtain ⟨txid, index, s', sequence, toks', g1, g2, rfl⟩ := viewTxIn_some.mp hvx
+    simp only [g1]
+    have s2 := bind_stage s1 hnd' hri g1 hcode2 hx
+    simp only [s2.hb]
+    rw [tailStage_eq]
+    simp only [bind, Except.bind]
+    cases hso : stageOut (write (List.foldl blank (h ++ ext, []) ins).1 ri (Obj.txin txid index code sequence)) tmp
+        version locktime seg a c ins outs i (ht &&& 31) (ri :: (List.foldl blank (h ++ ext, []) ins).2) with
+    | error e =>
+      have := stageOut_sim_err s2 i _ _ hso
+      simp only
+      unfold modelTmp
+      simp only [hx, this]
+    | ok p =>
+      obtain ⟨cur', tmp', ws'⟩ := p
+      obtain ⟨rfl, b', outs', I', O', hm, s3⟩ := stageOut_sim_ok s2 hnd' i _ _ hso
+      obtain ⟨cur'', ws'', a', ins', hsa, s4⟩ := stageAny_sim s3 hri ht ws'
+      simp only [hsa]
+      refine ⟨_, ?_, s4.view⟩
+      unfold modelTmp
+      simp only [hx, hm]
+      subst e1 e2 e3
+      rfl
+
+
 end HeapLemmas
